@@ -3,3 +3,5 @@ pub mod poly;
 pub mod ser;
 pub mod galois;
 pub mod rlwe;
+pub mod ntt;
+pub mod blakestream;
